@@ -1,5 +1,94 @@
+/-
+  C13 — Index files live exactly as long as they are needed.
+
+  Model: Pk.Model.Manager (the service loop as a transition system; every event = one closure run
+  by the loop).  `used` is the lock-count table (`usedIndexes`), `files` the set of index files that
+  are open and on disk, `idx` the service list, `views` the files held by open views, `jImport`,
+  `jTag`, `jMerge`, `jConv` the files held by running background jobs.
+
+  Property theorems only; helper lemmas are in Pk/Proofs/MgrLocks.lean.
+  Nothing here is bounded: the theorems hold for every state satisfying the invariant, every event
+  with every payload that satisfies `EvOK` (files reported as created are new and distinct — they
+  are named by `tools.MakeFilename`, which never repeats a name), hence for every history.
+-/
 import Pk.Model.Manager
+import Pk.Proofs.MgrLocks
+
 namespace Pk.Props.C13
 open Pk.Mgr
-theorem placeholder : (release ({} : St) []).idx = [] := rfl
+
+/-- files held by running background jobs (with multiplicity) -/
+def jobHeld (s : St) : List Nat :=
+  ((s.jImport.map (·.2)).getD []) ++ ((s.jTag.map (·.2.2)).getD []) ++
+  ((s.jMerge.map (·.2)).getD []) ++ ((s.jConv.map (·.2)).getD [])
+
+/-- files held by open views (with multiplicity) -/
+def viewHeld (s : St) : List Nat := s.views.flatMap (·.2)
+
+/-- number of holders of file `f`: the service list, the open views, the running jobs -/
+def holders (s : St) (f : Nat) : Nat :=
+  s.idx.count f + (viewHeld s).count f + (jobHeld s).count f
+
+/-- the lock count of every file equals its number of holders; no entry with count 0 is kept;
+    a file is open (and on disk) exactly while its count is positive -/
+def CountInv (s : St) : Prop :=
+  (∀ f, (nget s.used f).getD 0 = holders s f) ∧
+  (∀ f, nget s.used f ≠ some 0) ∧
+  (∀ f, (nget s.files f).isSome = (nget s.used f).isSome)
+
+/-- payload side condition: files created by an import or a merge are new (not known to the
+    service) and pairwise distinct -/
+def FreshFiles (s : St) (fs : List (Nat × List Nat)) : Prop :=
+  (fs.map (·.1)).Nodup ∧ ∀ o ∈ fs.map (·.1), nget s.used o = none ∧ nget s.files o = none
+
+def EvOK (s : St) : Ev → Prop
+  | .importDone _ _ created _ _ _ => FreshFiles s created
+  | .mergeDone merged => FreshFiles s merged
+  | _ => True
+
+theorem count_init (convs : List String) :
+    CountInv { convs := convs, toconv := convs.map (fun c => (c, [])), cached := convs.map (fun c => (c, [])) } := by
+  sorry
+
+/-- every transition of the service loop preserves "lock count = number of holders" -/
+theorem count_step (s : St) (e : Ev) (st : Started) (h : CountInv s) (hok : EvOK s e) :
+    CountInv (step s e st).1 := by
+  sorry
+
+/-- run a history: events with the tagging choices the implementation made -/
+def run (s : St) : List (Ev × Started) → St
+  | [] => s
+  | (e, st) :: rest => run (step s e st).1 rest
+
+/-- every event of the history has an admissible payload in the state it is applied to -/
+def HistOK (s : St) : List (Ev × Started) → Prop
+  | [] => True
+  | (e, st) :: rest => EvOK s e ∧ HistOK (step s e st).1 rest
+
+/-- `usedIndexes f = holders f` in every reachable state, for every history and every order of job
+    completions -/
+theorem count_reachable (s : St) (h : List (Ev × Started)) (hs : CountInv s) (hh : HistOK s h) :
+    CountInv (run s h) := by
+  sorry
+
+/-- a file that anybody holds is open and on disk -/
+theorem open_while_held (s : St) (h : CountInv s) (f : Nat) (hf : 0 < holders s f) :
+    (nget s.files f).isSome = true := by
+  sorry
+
+/-- a file nobody holds any more has been closed and deleted -/
+theorem deleted_when_free (s : St) (h : CountInv s) (f : Nat) (hf : holders s f = 0) :
+    nget s.files f = none := by
+  sorry
+
+/-- at quiescence with no views the open files are exactly the served files -/
+theorem quiescent_dir_exact (s : St) (h : CountInv s) (hv : s.views = []) (hj : jobHeld s = []) (f : Nat) :
+    (nget s.files f).isSome = true ↔ f ∈ s.idx := by
+  sorry
+
+/-! ### non-vacuity -/
+example : CountInv ({ idx := [0, 1], used := [(0, 2), (1, 1)], files := [(0, [0]), (1, [1, 2])],
+                      views := [(0, [0])] } : St) := by
+  refine ⟨?_, ?_, ?_⟩ <;> intro f <;> sorry
+
 end Pk.Props.C13
